@@ -1081,10 +1081,18 @@ class ObjExec(AbsExec):
                 if cls in BUILTIN_EXC or cls.endswith(("Error", "Exception")):
                     raise Raised(cls, s)
         if isinstance(s, (ast.Import, ast.ImportFrom)):
+            from .absexec import stdlib
+
             for a in s.names:
                 nm = a.asname or a.name.split(".")[0]
                 if nm in self.globals:
                     continue  # the analysis supplies a model of this name
+                if isinstance(s, ast.Import) and a.name in ("functools", "operator", "itertools"):
+                    env[nm] = stdlib(a.name)
+                    continue
+                if isinstance(s, ast.ImportFrom) and s.module in ("functools", "operator", "itertools") and a.name in stdlib(s.module).fields:
+                    env[a.asname or a.name] = stdlib(s.module).fields[a.name]
+                    continue
                 if nm in self.alias or nm in self.simple or any(q == nm and f.cls is None for q, f in self.p.functions.items()):
                     env.pop(nm, None)  # a class / function of the package: resolved by name
                     continue
